@@ -82,6 +82,10 @@ def strict(v, t, path="", exact=False):
             if r is None:
                 return None
             rs.append(r)
+        # report the reason of the member that came closest: deepest location, key-type reasons first
+        best = max(rs, key=lambda r: (r[0].count(".") + r[0].count("[") + r[0].count("("), "key" in r[1]))
+        if best[0] != path:
+            return best
         return (path, f"no Union member accepts {type(v).__name__}: " + "; ".join(r[1] for r in rs)[:300])
     if k == "list":
         if not isinstance(v, list):
@@ -96,9 +100,9 @@ def strict(v, t, path="", exact=False):
             return (path, f"expected dict, got {type(v).__name__}")
         for kk, x in v.items():
             if t.extra is int and (not isinstance(kk, int) or isinstance(kk, bool)):
-                return (path, f"expected int key, got {type(kk).__name__}")
+                return (f"{path}.<key>", f"expected int key, got {type(kk).__name__}")
             if t.extra is str and not isinstance(kk, str):
-                return (path, f"expected str key, got {type(kk).__name__}")
+                return (f"{path}.<key>", f"expected str key, got {type(kk).__name__}")
             r = strict(x, t.children[0], f"{path}.{kk}", exact)
             if r:
                 return r
